@@ -29,8 +29,6 @@ pub open spec fn head_bytes() -> Seq<u8> { seq![72u8, 69, 65, 68] }   // "HEAD"
 pub fn vp_is_head(m: &Method) -> (r: bool) ensures r == (method_bytes(m) == head_bytes()) { m == Method::HEAD }
 #[verifier::external_body]
 pub fn vp_is_not_head(m: &Method) -> (r: bool) ensures r == (method_bytes(m) != head_bytes()) { m != Method::HEAD }
-pub assume_specification [StatusCode::is_informational] (s: &StatusCode) -> (r: bool) ensures r == (100 <= status_u16(*s) < 200);
-pub assume_specification [StatusCode::is_success] (s: &StatusCode) -> (r: bool) ensures r == (200 <= status_u16(*s) < 300);
 #[verifier::external_body]
 pub fn vp_is_no_content(s: StatusCode) -> (r: bool) ensures r == (status_u16(s) == 204) { s == StatusCode::NO_CONTENT }
 #[verifier::external_body]
